@@ -1,4 +1,6 @@
 (* C06 — the outcome of a build does not depend on thread scheduling.
+   ROUND 2: see the second half of this file — the verdict and every workspace file's content are proved equal for
+   every order in which the workers do their (atomic) work steps; what follows describes round 1.
    Only the property theorems; proofs in Proofs/ProtocolFacts.v.
    PARTIAL. What is proved, for every interleaving: every complete execution consists of exactly the same
    events — each worker is spawned, receives on each in-edge once, works once, sends on each out-edge once,
@@ -10,7 +12,9 @@
    implementation by schedule exploration — serial, random, PCT and bounded exhaustive schedules of the
    same invocation must give the same verdict and workspace, with the serial run compared to the model. *)
 From Coq Require Import List Arith Permutation.
-From Ruler Require Import Bytes Protocol ProtocolFacts.
+From Ruler Require Import Bytes AList RuleSyntax TopoSort World Cmdlang Work Build Ops Inv BuildSpec Ideal InvFacts C01Hist C01Facts
+     Sched SchedBasic SchedFacts.
+From Ruler Require Import Protocol ProtocolFacts.
 Local Close Scope N_scope.
 Local Open Scope nat_scope.
 
@@ -30,4 +34,65 @@ Theorem C06_complete_run_length : forall g evs s, wf_graph g ->
   length evs = measure g (init_pstate g).
 Proof. exact c06_complete_run_length. Qed.
 
+(* ------------------------------------------------------------------------------------------------------
+   THE OUTCOME UNDER EVERY WORK ORDER (Model/Sched.v; proofs in Proofs/Sched{Basic,Serial,Rule,Inv,Facts}.v).
+   `build_ord ord` is the build in which the workers — leaves first, then rule nodes, numbered in spawn order —
+   perform their work steps (wait for all sources, then handle the rule: resolve targets against history and
+   cache, possibly run the command) in the order `ord`, each step atomic, followed by main's join loop in spawn
+   order. `valid_order`: every worker once, each after the workers it waits for — by the protocol theorems above
+   (and C03) every complete execution of the thread protocol induces such an order. The serial model
+   Build.build is the spawn order.
+   For every two valid orders, from any state with the disk invariant and sound histories (every state reached by
+   a history, C01) and a plan of deterministic, confined commands: THE SAME VERDICT (the very same error list)
+   and THE SAME CONTENT OF EVERY FILE of the workspace — although the executed command sequences, the cache and
+   the status lines may differ (independent rules that produce byte-identical files compete for one cache entry:
+   one is recovered, the other re-runs; neither fails). What is not represented: interleaving INSIDE a work
+   step (the cache's check-then-rename, where the repaired defect F2 lived); that is explored on the
+   implementation, and work-atomic schedules of the implementation are compared in full with build_ord. *)
+Local Open Scope N_scope.
+Local Notation build_sym := (build sym_eqb SContent SList SRule).
+Local Notation build_ord_sym := (build_ord sym_eqb SContent SList SRule).
+Local Notation hist_sound_sym := (hist_sound sym sym_eqb SContent SList SRule).
+
+Theorem C06_serial_build_is_the_spawn_order : forall (w : world sym) rp goal w1 t pack,
+  init_dir sym w = Ok (w1, t) -> get_nodes sym w1 rp goal = Ok pack ->
+  build_ord_sym (spawn_order pack) w rp goal = build_sym w rp goal.
+Proof. exact build_ord_spawn_order_sym. Qed.
+
+Theorem C06_same_verdict_and_files_for_every_work_order : forall (w : world sym) rp goal w1 tbl pack ord1 ord2,
+  disk_inv sym_eqb SContent w -> hist_sound_sym w ->
+  init_dir sym w = Ok (w1, tbl) -> get_nodes sym w1 rp goal = Ok pack ->
+  Forall det_node (p_nodes pack) -> valid_order pack ord1 -> valid_order pack ord2 ->
+  o_verdict (build_ord_sym ord1 w rp goal) = o_verdict (build_ord_sym ord2 w rp goal) /\
+  forall p, content_at (o_world (build_ord_sym ord1 w rp goal)) p = content_at (o_world (build_ord_sym ord2 w rp goal)) p.
+Proof. exact build_ord_schedule_independent_sym. Qed.
+
+(* C01 on every schedule *)
+Theorem C06_every_work_order_equals_scratch : forall (w : world sym) rp goal w1 tbl pack ord,
+  disk_inv sym_eqb SContent w -> hist_sound_sym w ->
+  init_dir sym w = Ok (w1, tbl) -> get_nodes sym w1 rp goal = Ok pack ->
+  Forall det_node (p_nodes pack) -> valid_order pack ord ->
+  o_verdict (build_ord_sym ord w rp goal) = VOk ->
+  forall t, In t (plan_targets pack) ->
+    content_at (o_world (build_ord_sym ord w rp goal)) t = content_at (scratch_world w pack) t.
+Proof. exact build_ord_equals_scratch_sym. Qed.
+
+(* the verdict is decided by the from-scratch run alone (no state file being damaged): success iff every leaf exists
+   and every command of the plan, run in plan order from absent targets, exits 0 and leaves all its targets *)
+Theorem C06_success_iff_from_scratch_success : forall (w w1 : world sym) rp goal tbl pack ord,
+  disk_inv sym_eqb SContent w -> hist_sound_sym w ->
+  init_dir sym w = Ok (w1, tbl) -> get_nodes sym w1 rp goal = Ok pack ->
+  Forall det_node (p_nodes pack) -> valid_order pack ord ->
+  read_histories sym sym_eqb SRule w1 (p_nodes pack) <> None ->
+  (o_verdict (build_ord_sym ord w rp goal) = VOk <-> scratch_success sym w pack).
+Proof. exact build_ord_verdict_scratch_corrected_sym. Qed.
+
+(* the orders are not a degenerate notion: two different valid orders of one plan execute different command
+   sequences and still agree (vm_compute on a concrete history with two independent rules producing
+   byte-identical files) *)
+Theorem C06_example_two_orders :
+  valid_order cx_pack [0; 1; 3; 2]%nat /\ valid_order cx_pack [0; 1; 2; 3]%nat /\ [0; 1; 3; 2]%nat <> [0; 1; 2; 3]%nat.
+Proof. split; [exact (proj1 ex_orders_valid) | split; [exact (proj2 ex_orders_valid) | exact ex_orders_differ]]. Qed.
+
 Check C06_same_events_every_schedule.
+Check C06_same_verdict_and_files_for_every_work_order.
